@@ -743,7 +743,9 @@ pub(crate) fn solve_expression(
                                     }
                                 }
                                 if res != SolverResult::True {
-                                    return res;
+                                    // NOTE: A nested expression over an array is either
+                                    // satisfied by an element or false, never missing.
+                                    return SolverResult::False;
                                 }
                             }
                             return SolverResult::True;
